@@ -305,6 +305,39 @@ theorem C04_init_no_panic (d : Bytes) (h : unpack d = .ok ()) (t : Bytes) (h8 : 
         obtain ⟨d2, hw⟩ := writeAt_fits d1 lo v (by omega)
         simp only [hw]; simp
 
+/-- A resize to a length that does not fit the 4-byte length field never succeeds, whatever the
+    buffer and however much room it has (the `bigrealloc` cases run this on a buffer of more than
+    4 GiB); by `C04_realloc_atomic` a reported error leaves the bytes untouched. -/
+theorem C04_unrepresentable_resize (d t : Bytes) (len rep : Nat) (h : 2 ^ 32 ≤ len) :
+    (realloc d t len rep).2.isOk = false := by
+  have hl : ∀ x, lengthFromUsize len ≠ .ok x := by
+    intro x; unfold lengthFromUsize
+    have e : (2:Nat) ^ (8 * LW) = 2 ^ 32 := by decide
+    rw [e, if_neg (by omega)]; simp
+  unfold realloc
+  cases h1 : getIndices d t false (some rep) with
+  | panic => rfl
+  | err e => rfl
+  | ok ix =>
+    simp only
+    cases h2 : getDiscsAndEnd d with
+    | panic => rfl
+    | err e => rfl
+    | ok p =>
+      obtain ⟨ds, endIdx⟩ := p
+      simp only
+      cases h3 : slice d ix.lengthStart ix.valueStart with
+      | panic => rfl
+      | err e => rfl
+      | ok lenBytes =>
+        simp only
+        split
+        · rfl
+        · cases h4 : lengthFromUsize len with
+          | panic => rfl
+          | err e => rfl
+          | ok nl => exact absurd h4 (hl nl)
+
 /-- A length that does not fit the 4-byte length field is never allocated, whatever the buffer (in
     particular however much room it has): the result is not a success, and by `C04_alloc_atomic` a
     reported error leaves the bytes untouched. -/
